@@ -1,4 +1,4 @@
-\* exhaustive, thorough: size 3 (37-cell hexagons, 4x... 3x3 Cartesian), sparse maps with up to 3 cells, up to 2 holes
+\* exhaustive, thorough: size 3 (37-cell hexagons, 3x3 Cartesian), sparse maps with up to 3 cells, complete maps with up to 2 holes
 CONSTANTS N = 3  MaxHoles = 2  MaxCells = 3  MaxLevel = 5
 CONSTANT Classes = {"cart", "third", "fullflat", "fulltips"}
 INIT Init
